@@ -441,7 +441,8 @@ func compileStruct(typ *runtime.Type, structName, fieldName string, structTypeTo
 			allFields = append(allFields, fieldSet)
 		}
 	}
-	for _, set := range filterDuplicatedFields(allFields) {
+	structDec.fieldList = filterDuplicatedFields(allFields)
+	for _, set := range structDec.fieldList {
 		fieldMap[set.key] = set
 		lower := strings.ToLower(set.key)
 		if _, exists := fieldMap[lower]; !exists {
